@@ -1,4 +1,4 @@
-import ZbossModel.Proofs.Host
+import ZbossModel.Proofs.HostSched
 /-! # C14 - blocking requests are mutually exclusive and served first-come first-served -/
 namespace Zboss.Host
 
@@ -42,6 +42,18 @@ theorem C14_nonblocking_free (st : St) (i : Nat) (r : Req) (fuel : Nat) (hg : ge
     (hp : r.phase = .waitB) (hnb : r.blocking = false) :
     runReq (fuel + 1) st i = runReq fuel (updReq st i fun r => { r with phase := .waitM }) i := by
   rw [runReq]; simp only [hg, hp, hnb, Bool.false_eq_true, if_false]
+
+/-- **exclusive under every scheduling order** of the task micro-steps (see `MReach`): in every state the
+    event loop can be in - also in the middle of a loop iteration - at most one blocking request is past the
+    blocking lock -/
+theorem C14_exclusive_any_schedule (hist : List Out) (st : St) (h : MReach hist st) (r1 r2 : Req)
+    (h1 : r1 ∈ st.reqs) (h2 : r2 ∈ st.reqs) (b1 : r1.blocking = true) (b2 : r2.blocking = true)
+    (p1 : afterB r1.phase = true) (p2 : afterB r2.phase = true) : r1 = r2 := by
+  have hinv := (mreach_inv hist st h).1.1
+  have a1 := (hinv.2 r1 h1).1 .B ((hinv.2 r1 h1).2.2.2 b1 p1)
+  have a2 := (hinv.2 r2 h2).1 .B ((hinv.2 r2 h2).2.2.2 b2 p2)
+  rw [a1] at a2
+  exact unique_of_id _ hinv.1 r1 r2 h1 h2 (by simpa using a2)
 
 /-! ## non-vacuity: blocking 1 awaits its response, blocking 2 stays queued, non-blocking 3 is written at once -/
 example : ((runEvents {} [.start 1 1 true 1 3013, .rxAck 0, .start 2 2 true 1 5026, .start 3 3 false 1 7039]).2.map
